@@ -302,6 +302,12 @@ RECURSIVE SameKeyDiffer(_)
 SameKeyDiffer(sel) ==
   \/ \E i, k \in DOMAIN sel : i < k /\ sel[i].k = "f" /\ sel[k].k = "f" /\ Key(sel[i]) = Key(sel[k]) /\ sel[i] # sel[k]
   \/ \E i \in DOMAIN sel : SameKeyDiffer(sel[i].sel)
+\* two fragments with the same type condition in one selection list (normalization merges them; the planner never
+\* emits them)
+RECURSIVE SameOnSiblings(_)
+SameOnSiblings(sel) ==
+  \/ \E i, k \in DOMAIN sel : i < k /\ sel[i].k # "f" /\ sel[k].k # "f" /\ sel[i].on = sel[k].on
+  \/ \E i \in DOMAIN sel : SameOnSiblings(sel[i].sel)
 E_Split(op, p, i) == LET L == SelsAt(op.sel, p) IN i \in DOMAIN L /\ L[i].k = "f" /\ CountSels(op.sel) < MaxSels
 R_Split(op, p, i) == LET L == SelsAt(op.sel, p)
                          f == L[i]
